@@ -405,9 +405,8 @@ func (sc *serverConn) readLoop() (err error) {
 		case FrameSettings:
 			st := fr.Body().(*Settings)
 			if !st.IsAck() { // if it has ack, just ignore
-				sc.handleSettings(st)
-				// forward to handleStreams so the INITIAL_WINDOW_SIZE delta is
-				// applied to open streams in frame order.
+				// forward to handleStreams, which owns everything the settings
+				// apply to, and acknowledges them once they are applied.
 				if !sc.forward(fr) {
 					return errConnClosed
 				}
@@ -712,6 +711,8 @@ loop:
 				switch fr.Type() {
 				case FrameSettings:
 					st := fr.Body().(*Settings)
+					st.MergeTo(&sc.clientS)
+
 					if st.Has(HeaderTableSize) {
 						sc.enc.SetMaxTableSize(st.HeaderTableSize())
 					}
@@ -727,7 +728,14 @@ loop:
 								break loop
 							}
 						}
+					}
 
+					// The acknowledgement tells the peer that the values are in
+					// force (RFC 7540 6.5.3), so it goes out after they have been
+					// applied and before anything is sent under them.
+					sc.writeSettingsAck()
+
+					if st.hasWindowSize {
 						sc.flushStreams(strms, closeStream)
 					}
 				case FrameWindowUpdate:
@@ -1927,15 +1935,7 @@ func (sc *serverConn) writeLoop() {
 	}
 }
 
-func (sc *serverConn) handleSettings(st *Settings) {
-	st.MergeTo(&sc.clientS)
-	// The encoder belongs to the stream loop, which sets its table size when
-	// this frame reaches it.
-
-	// The per-stream send windows are adjusted in handleStreams, where the
-	// stream table lives. The connection-level window is not affected by
-	// SETTINGS_INITIAL_WINDOW_SIZE (RFC 7540 6.9.2).
-
+func (sc *serverConn) writeSettingsAck() {
 	fr := AcquireFrameHeader()
 
 	stRes := AcquireFrame(FrameSettings).(*Settings)
